@@ -459,17 +459,19 @@ def save_sequences(ctx):
     whatever file a later to_file() call was asked to write must hold the model as it is then"""
     from pycel import ExcelCompiler
     spec = {'sheets': [['Sheet1', {'A1': 1, 'B1': '=A1*2', 'C1': '=B1&"x"'}]], 'names': {}, 'arrays': [], 'calc': None}
-    for text in ('yml', 'json'):
-        other = 'json' if text == 'yml' else 'yml'
-        for between, revert in (((), False), ((text,), False), (('pkl', text), False), (('pkl',), False),
-                                ((other,), False), (('pkl', other), False), (('pkl', other), True),
+    # (every spelling of the file types to_file accepts: yml / yaml, pkl / pickle)
+    for text, other, pkl in (('yml', 'json', 'pkl'), ('json', 'yml', 'pkl'), ('json', 'yaml', 'pkl'),
+                             ('yaml', 'json', 'pickle'), ('json', 'yaml', 'pickle')):
+        for between, revert in (((), False), ((text,), False), ((pkl, text), False), ((pkl,), False),
+                                ((other,), False), ((pkl, other), False), ((pkl, other), True),
                                 ((other,), True)):
-            base = os.path.join(ctx.tmpdir, f'seq-{text}-{"-".join(between) or "none"}-{revert}-model')
-            case = {'kind': 'save-sequence', 'text': text, 'between': list(between), 'revert': revert}
+            base = os.path.join(ctx.tmpdir, f'seq-{text}-{other}-{pkl}-{"-".join(between) or "none"}-{revert}-model')
+            case = {'kind': 'save-sequence', 'text': text, 'other': other, 'pkl': pkl, 'between': list(between),
+                    'revert': revert}
             comp = wb.compile_mem(spec)
             comp.evaluate('Sheet1!C1')
             try:
-                comp.to_file(base, file_types=('pkl', text))          # state 0
+                comp.to_file(base, file_types=(pkl, text))            # state 0
                 comp.set_value('Sheet1!A1', 10)
                 comp.evaluate('Sheet1!C1')
                 if between:
@@ -477,8 +479,8 @@ def save_sequences(ctx):
                 if revert:
                     comp.set_value('Sheet1!A1', 1)                    # the text file of state 0 is current again
                     comp.evaluate('Sheet1!C1')
-                comp.to_file(base, file_types=('pkl', text))          # the model as it is now, both files
-                loaded = {ext: ExcelCompiler.from_file(f'{base}.{ext}') for ext in ('pkl', text)}
+                comp.to_file(base, file_types=(pkl, text))            # the model as it is now, both files
+                loaded = {ext: ExcelCompiler.from_file(f'{base}.{ext}') for ext in (pkl, text)}
             except Exception as exc:
                 if not wb.raised_outside_harness(exc):
                     raise
@@ -488,14 +490,14 @@ def save_sequences(ctx):
                 for f in glob.glob(base + '.*'):
                     os.remove(f)
             ctx.count('directed:save_sequences')
-            ctx.case(('save-sequence', text, between))
+            ctx.case(('save-sequence', text, other, pkl, between, revert))
             want = '2x' if revert else '20x'
             for ext, model in loaded.items():
                 got = wb.outcome(model.evaluate, 'Sheet1!C1')
                 if got != ('v', want):
-                    ctx.violation(f'file-written-by-to_file-holds-an-older-model/{ext}',
-                                  f'to_file(pkl+{text}); set_value; to_file({"+".join(between) or "nothing"}); '
-                                  f'{"set_value back; " if revert else ""}to_file(pkl+{text}): the model loaded from '
+                    ctx.violation(f'file-written-by-to_file-holds-an-older-model/{"pkl" if ext == pkl else "text"}',
+                                  f'to_file({pkl}+{text}); set_value; to_file({"+".join(between) or "nothing"}); '
+                                  f'{"set_value back; " if revert else ""}to_file({pkl}+{text}): the model loaded from '
                                   f'the {ext} file gives C1 = {got!r}, the saved model has {want}', case)
                     break
 
